@@ -97,6 +97,14 @@ func Start(prop, level string) *Ctx {
 	}
 }
 
+// outRoot is where evidence and replays are written: VERIF_OUT (seeded-break validation) or the root.
+func (c *Ctx) outRoot() string {
+	if o := os.Getenv("VERIF_OUT"); o != "" {
+		return o
+	}
+	return c.Root
+}
+
 // Quick reports whether this is the quick tier.
 func (c *Ctx) Quick() bool { return c.Tier == "quick" }
 
@@ -347,7 +355,7 @@ func (c *Ctx) Finish() {
 	c.mu.Unlock()
 	unlisted := 0
 	knownSeen := map[string]bool{}
-	replayDir := filepath.Join(c.Root, "replays", c.Prop)
+	replayDir := filepath.Join(c.outRoot(), "replays", c.Prop)
 	for _, v := range viol {
 		listed := false
 		for _, k := range known {
@@ -435,7 +443,9 @@ func (c *Ctx) writeEvidence(unlisted, knownN int, broken []string) {
 	defer c.mu.Unlock()
 	cov := map[string]any{}
 	for k, v := range c.extra {
-		cov[k] = v
+		if !strings.HasPrefix(k, "__") {
+			cov[k] = v
+		}
 	}
 	cov["evaluations"] = c.evals
 	cov["distinct_nontrivial"] = len(c.nontrivial)
@@ -494,7 +504,7 @@ func (c *Ctx) writeEvidence(unlisted, knownN int, broken []string) {
 		ev["assumptions"] = []string{}
 	}
 	b, _ := json.MarshalIndent(ev, "", " ")
-	dir := filepath.Join(c.Root, "evidence")
+	dir := filepath.Join(c.outRoot(), "evidence")
 	_ = os.MkdirAll(dir, 0o755)
 	_ = os.WriteFile(filepath.Join(dir, c.Prop+".json"), b, 0o644)
 }
